@@ -78,5 +78,5 @@ func c02Resume(out *emit.Out, in c02Input) {
 	}
 	out.Add(emit.Case{Scenario: "resume-cross-config/" + in.Stack, Input: in, Direct: direct,
 		Observed: map[string]interface{}{"session_offered": offered, "accepted": acc, "resumed": second.Res.Resumed, "delivered": len(second.Read) > 0},
-		Coq: fmt.Sprintf("ResumeCase false (mkRV %s %s true) %s %s %s %s", emit.Bool(sessOK), emit.Bool(offered), emit.Bool(offered), emit.Bool(acc), emit.Bool(second.Res.Resumed), emit.Bool(len(second.Read) > 0))})
+		Coq:      fmt.Sprintf("ResumeCase false (mkRV %s %s true) %s %s %s %s", emit.Bool(sessOK), emit.Bool(offered), emit.Bool(offered), emit.Bool(acc), emit.Bool(second.Res.Resumed), emit.Bool(len(second.Read) > 0))})
 }
